@@ -1,9 +1,25 @@
 /* note_f9 (F11 shape), with the call/ret announcements that
    replay/note_replay.ml needs.  P -> c -> g.
-   T1: nsync_note_free (c).   T2: nsync_note_free (P); nsync_note_free (g). */
+   T1: nsync_note_free (c).   T2: nsync_note_free (P); nsync_note_free (g).
+   VRT_T3=1 (default: half of the runs): a third thread notifies g while the two frees run (T3: nsync_note_notify (g)) -- its
+   g->disconnecting++ can land between free (P)'s wait for "children changed" and its next pass over the adopted g, which must then
+   WAIT again (seeded change C09c: a stale seen_adoptions makes that wait return at once for ever, holding P's lock). */
+#include "nsync_cpp.h"
+#include "platform.h"
+#include "compiler.h"
+#include "cputype.h"
 #include "nsync.h"
+#include "dll.h"
+#include "sem.h"
+#include "wait_internal.h"
+#include "common.h"
+#include "atomic.h"
 #include "vrt.h"
+#include <stddef.h>
 #include <stdio.h>
+#include <stdint.h>
+static int with_t3;
+static size_t adoptions_off;
 static nsync_note note[3];   /* P = 0, c = 1, g = 2 (allocation order = the model's ids) */
 static void x_new (int i, int par) {
 	vrt_note ("call %d new %d none", vrt_self (), par);
@@ -16,13 +32,30 @@ static void x_free (int i) {
 	vrt_note ("ret %d -", vrt_self ());
 }
 static void t1 (void *a) { x_free (1); }
-static void t2 (void *a) { x_free (0); vrt_count ("freeP_returned"); x_free (2); }
+static uint32_t t3_done_w;
+static void t2 (void *a) {
+	x_free (0); vrt_count ("freeP_returned");
+	/* g may be freed only when no other thread uses it: wait for T3's notify to return (an atomic of the scenario, a scheduling point) */
+	while (with_t3 && vrt_load (&t3_done_w, VRT_ACQ, "note_f9.c", __LINE__) == 0) vrt_yield ();
+	x_free (2);
+}
+static void t3 (void *a) {
+	/* VRT_T3=2: directed -- start the notification only once free (c) has handed g over to P (P->adoptions != 0), or P is gone */
+	while (with_t3 == 2 && !vrt_is_freed (note[0]) && vrt_peek32 ((const char *) note[0] + adoptions_off) == 0) vrt_yield ();
+	vrt_note ("call %d notify 2", vrt_self ());
+	nsync_note_notify (note[2]);
+	vrt_note ("ret %d -", vrt_self ());
+	vrt_store (&t3_done_w, 1, VRT_REL, "note_f9.c", __LINE__);
+}
 int main (void) {
 	x_new (0, -1);
 	x_new (1, 0);
 	x_new (2, 1);
 	vrt_thread ("T1", t1, NULL);
 	vrt_thread ("T2", t2, NULL);
+	with_t3 = vrt_opt ("T3", (int) vrt_rand (3));
+	adoptions_off = offsetof (struct nsync_note_s_, adoptions);
+	if (with_t3) vrt_thread ("T3", t3, NULL);
 	vrt_run ();
 	printf ("VRT-END ok\n");
 	return 0;
